@@ -1,4 +1,5 @@
 import Hl7.Lemmas.HeapCases
+import Hl7.Props.C11
 /-!
 # C09 — Child mutations behave like edits of an ordered list  (element-graph core, after the repairs of D7/D8/D23)
 
@@ -134,10 +135,116 @@ theorem C09_replace_spec (p old new : Nat) (h : Heap) (on : Node) (ho : h[old]? 
   rw [C09_replace_in_place R p old new h on ho hnt hnew hok]
   exact set_idxOf_eq_specReplace _ _ _ hnd hold
 
+
+/-! ### assignment and deletion address a repetition by name and index -/
+
+theorem pyIdx_mem (l : List Nat) (i : Int) (c : Nat) (h : pyIdx l i = some c) : c ∈ l := by
+  unfold pyIdx at h
+  split at h
+  · exact List.mem_of_getElem? h
+  · split at h
+    · exact List.mem_of_getElem? h
+    · cases h
+
+/-- the repetition `child_at_index` finds among the real children is a listed child of that name -/
+theorem childAt_listed (h : Heap) (p : Nat) (name : String) (i : Int) (c : Nat)
+    (hc : pyIdx (namedReps h p name) i = some c) : c ∈ listOf h p ∧ nameOf h c = some name := by
+  have hm := pyIdx_mem _ _ _ hc
+  unfold namedReps at hm
+  rw [List.mem_filter] at hm
+  exact ⟨by unfold listOf; exact hm.1, by simpa using hm.2⟩
+
+/-- **C09 (assignment replaces the addressed repetition in place).** `ElementList.set` on a name whose `i`-th repetition
+    exists is `replace_child` of exactly that repetition: the parent's list afterwards is the old one with the addressed
+    child replaced at its position. (`hstop`: the parent is not itself a pending traversal child, so the final
+    `set_parent_to_traversal()` has nothing to promote.) -/
+theorem C09_set_replaces_addressed (p new old : Nat) (i : Int) (h : Heap) (nn on : Node)
+    (hn : h[new]? = some nn) (ho : h[old]? = some on)
+    (haddr : pyIdx (namedReps h p nn.name) i = some old)
+    (hnt : on.tparent ≠ some p) (hnew : new ∉ listOf h p)
+    (hstop : ∀ pn1, (replaceChild R p old new h).1[p]? = some pn1 → pn1.tparent = none ∨ pn1.parent ≠ none)
+    (hok : (setChild R p new i h).2 = .ok ()) :
+    listOf (setChild R p new i h).1 p = (listOf h p).set ((listOf h p).idxOf old) new := by
+  unfold setChild at hok ⊢
+  have hca : childAt h p nn.name i = some old := by unfold childAt; simp [haddr]
+  simp only [hn, hca] at hok ⊢
+  cases hr : replaceChild R p old new h with
+  | mk h1 r1 =>
+    cases r1 with
+    | error e => simp [hr] at hok
+    | ok u =>
+      simp only [hr] at hok ⊢
+      have hrok : (replaceChild R p old new h).2 = .ok () := by rw [hr]
+      have hl := C09_replace_in_place R p old new h on ho hnt hnew hrok
+      rw [hr] at hl; simp only at hl
+      cases hp1 : h1[p]? with
+      | none =>
+        -- no such node: `promote` crashes without touching the heap
+        have : (promote R h1.length p h1).1 = h1 := by
+          cases hlen : h1.length with
+          | zero => rfl
+          | succ n => unfold promote; simp [hp1]
+        rw [this]; exact hl
+      | some pn1 =>
+        have hs := hstop pn1 (by rw [hr]; exact hp1)
+        rw [(C11_promote_stop R h1.length p h1 pn1 hp1 hs p).1]
+        exact hl
+
+/-- **C09 (assignment appends when the addressed repetition is absent).** -/
+theorem C09_set_appends_when_absent (p new : Nat) (i : Int) (h : Heap) (nn : Node)
+    (hn : h[new]? = some nn) (habs : childAt h p nn.name i = none)
+    (hnt : nn.parent = some p ∨ nn.tparent ≠ some p)
+    (hstop : ∀ pn1, (append R p new h).1[p]? = some pn1 → pn1.tparent = none ∨ pn1.parent ≠ none)
+    (hok : (setChild R p new i h).2 = .ok ()) :
+    listOf (setChild R p new i h).1 p = if new ∈ listOf h p then listOf h p else listOf h p ++ [new] := by
+  unfold setChild at hok ⊢
+  simp only [hn, habs] at hok ⊢
+  cases hr : append R p new h with
+  | mk h1 r1 =>
+    cases r1 with
+    | error e => simp [hr] at hok
+    | ok u =>
+      simp only [hr] at hok ⊢
+      have hrok : (append R p new h).2 = .ok () := by rw [hr]
+      have hl := C09_append_list R p new h nn hn hrok hnt
+      rw [hr] at hl; simp only at hl
+      cases hp1 : h1[p]? with
+      | none =>
+        have : (promote R h1.length p h1).1 = h1 := by
+          cases hlen : h1.length with
+          | zero => rfl
+          | succ n => unfold promote; simp [hp1]
+        rw [this]; exact hl
+      | some pn1 =>
+        have hs := hstop pn1 (by rw [hr]; exact hp1)
+        rw [(C11_promote_stop R h1.length p h1 pn1 hp1 hs p).1]
+        exact hl
+
+/-- **C09 (deletion removes exactly the addressed repetition).** `remove_by_name(name, i)` erases the `i`-th child of
+    that name from the list and nothing else. -/
+theorem C09_removeByName (p c : Nat) (name : String) (i : Int) (h : Heap) (cn : Node) (hc : h[c]? = some cn)
+    (haddr : pyIdx (namedReps h p name) i = some c) (hnt : cn.tparent ≠ some p)
+    (hok : (removeByName p name i h).2 = .ok ()) :
+    listOf (removeByName p name i h).1 p = (listOf h p).erase c ∧ ∀ q, q ≠ p → listOf (removeByName p name i h).1 q = listOf h q := by
+  unfold removeByName at hok ⊢
+  have hca : childAt h p name i = some c := by unfold childAt; simp [haddr]
+  simp only [hca] at hok ⊢
+  exact ⟨C09_remove_list p c h cn hc hok hnt, fun q hq => C09_remove_frame p c q h hok hq⟩
+
+/-- deleting an absent repetition is rejected and changes nothing (C12) -/
+theorem C09_removeByName_absent (p : Nat) (name : String) (i : Int) (h : Heap) (habs : childAt h p name i = none) :
+    removeByName p name i h = (h, .error .crash) := by
+  unfold removeByName; simp [habs]
+
 /-- non-vacuity: a concrete heap on which replacement succeeds and keeps the order -/
 def exRules : Rules := ⟨fun _ _ => true, fun _ _ => -1, fun _ => false⟩
 def exHeap : Heap := [{ name := "S", list := [1, 2, 3] }, { name := "A", parent := some 0 }, { name := "B", parent := some 0 },
                      { name := "C", parent := some 0 }, { name := "X" }]
 example : (replaceChild exRules 0 1 4 exHeap).2.toBool = true ∧ listOf (replaceChild exRules 0 1 4 exHeap).1 0 = [4, 2, 3] := by decide
+/-- … and assignment by name and index: the second `B` of `[A, B, C, B']` is replaced where it stands -/
+def exHeap2 : Heap := [{ name := "S", list := [1, 2, 3, 5] }, { name := "A", parent := some 0 }, { name := "B", parent := some 0 },
+                      { name := "C", parent := some 0 }, { name := "B" }, { name := "B", parent := some 0 }]
+example : (setChild exRules 0 4 1 exHeap2).2.toBool = true ∧ listOf (setChild exRules 0 4 1 exHeap2).1 0 = [1, 2, 3, 4] ∧
+    listOf (setChild exRules 0 4 (-2) exHeap2).1 0 = [1, 4, 3, 5] := by decide
 
 end Hl7.Heap
